@@ -50,6 +50,9 @@ RULE = ('pos: random programs over most statement/expression productions written
         'non-trivial = multi-line text with at least one comment or split END token or phrase with newline, distinct '
         'by text.  total: arbitrary strings over a mixed ASCII/Unicode alphabet, random token sequences, single-edit '
         'mutations (delete/duplicate/swap token, truncate, unterminated string/comment/phrase, insert/delete char) of '
+        'generated programs; every fifth pos case with characters no rule matches (BOM, NUL, $, #, form feed, ...) in '
+        'front of it / in front of tokens / behind it (positions w.r.t. the GIVEN text); strnl: a raw line break inside '
+        'a double-quoted string; long single tokens (4299..5500 digits / letters); '
         'generated programs, weighted 70 % to mutations.  time: 23 adversarial families at growing lengths.')
 EXHAUSTIVE = {'quick': False, 'thorough': False}
 ASSUMPTIONS = [
@@ -597,10 +600,14 @@ def run_impl(case):
             obs = _impl_obs(case, text + '\n')
         except Exception as e:
             if out in ('tree', 'ParseException'):
-                # oal.parse copes with this very text: the exception comes from how the harness drives its own lexer
-                # object (built by text_input, see gen_oal_text.oal_lexer), not from the implementation
-                raise common.HarnessError('the harness-driven lexer raised %s: %s on %r, but oal.parse ends in %s on '
-                                          'the same text' % (type(e).__name__, str(e)[:200], short, out))
+                # oal.parse copes with this very text (it may simply have stopped at a syntax error before the place
+                # where the lexer raises): an exception below a lexer the HARNESS drives over the whole text is not a
+                # failing input of the implementation.  It is an observation - the model has a token stream for
+                # every text, so K fails on the case and the enlarged search looks for a text on which oal.parse
+                # itself ends in that exception; a harness-side cause ends in no-failing-input-found.
+                stats['lexer_raised_but_parse_copes'] = 1
+                return {'obs': [Sym('lexer-raised'), type(e).__name__], 'd_fail': fails[:4], 'nontrivial': nontrivial,
+                        'key': text, 'stats': stats}
             fails.append({'sig': 'lexer-exception:%s' % type(e).__name__,
                           'what': 'the lexer raised %s: %s on %r (oal.parse: %s)' % (type(e).__name__, str(e)[:100], short, out)})
             obs = 'lexer-exception'
